@@ -309,6 +309,41 @@ pub fn corpus() -> Vec<Entry> {
         ("k7", func(&[], vec![ret(int(7))])),
         ("nested", func(&["x"], vec![ret(native("call1", vec![fval("dbl"), add(rv("x"), int(1))]))])),
     ])));
+    // the caller's variables after a re-entrant native returned: a local of the caller that a closure has captured is
+    // still ONE variable for the caller and the closure (the upvalue stays open across the nested run); want_* / got_*
+    // are judged by C18Check.wants_ok
+    for (name, reenter) in [
+        ("reentry_keeps_open_upvalue_call0", native("call0", vec![fval("k7")])),
+        ("reentry_keeps_open_upvalue_call1_closure", native("call1", vec![closure(&["x"], vec![ret(add(rv("x"), int(1)))]), int(6)])),
+        ("reentry_keeps_open_upvalue_try1_failing", native("try1", vec![fval("boom"), int(1)])),
+        ("reentry_keeps_open_upvalue_native_value", dyn_call(nval("call1"), vec![fval("dbl"), int(4)])),
+    ] {
+        let body = |reenter: Card| vec![
+            sv("counter", int(10)),
+            sv("inc", closure(&[], vec![sv("counter", add(rv("counter"), int(1)))])),
+            sv("_r", reenter),
+            sv("_a", dyn_call(rv("inc"), vec![])),
+            sg("got_after_inc", rv("counter")), sg("want_after_inc", int(11)),
+            sv("counter", int(100)),
+            sv("_b", dyn_call(rv("inc"), vec![])),
+            sg("got_after_set", rv("counter")), sg("want_after_set", int(101)),
+        ];
+        // once with main as the caller of the host function, once with a called function (its frame above main's locals)
+        v.push(e(name, module(vec![
+            ("main", func(&[], body(reenter.clone()))),
+            ("k7", func(&[], vec![ret(int(7))])),
+            ("dbl", func(&["x"], vec![ret(mul(rv("x"), int(2)))])),
+            ("boom", func(&["x"], vec![sv("_q", native("fail0", vec![])), ret(int(1))])),
+        ])));
+        let nested_name: &'static str = Box::leak(format!("{}_in_callee", name).into_boxed_str());
+        v.push(e(nested_name, module(vec![
+            ("main", func(&[], vec![sv("pad", int(3)), sv("_z", call("work", vec![int(1)])), sg("pad_after", rv("pad"))])),
+            ("work", func(&["p"], body(reenter))),
+            ("k7", func(&[], vec![ret(int(7))])),
+            ("dbl", func(&["x"], vec![ret(mul(rv("x"), int(2)))])),
+            ("boom", func(&["x"], vec![sv("_q", native("fail0", vec![])), ret(int(1))])),
+        ])));
+    }
     // A-36: frames left behind by a failing callee, observed through later behaviour
     v.push(e("reentry_error_swallowed", module(vec![
         ("main", func(&[], vec![
